@@ -652,7 +652,7 @@ def prove(hyps, goal, timeout_ms=10000, rounds=5, want_model=False, fallbacks=Tr
         for h_ in hyps:
             gnames -= symbols_of(h_)
         if gnames:
-            base_h = [hyps[i] for i in focus if i < len(hyps)] if focus else list(hyps)
+            base_h = [(hyps[i] if isinstance(i, int) else i) for i in focus if not isinstance(i, int) or i < len(hyps)] if focus else list(hyps)
             inst = Inst(nnf_skolem(base_h) + ng, rounds=8, must_contain=gnames)
             r, _ = inst.run(min(timeout_ms, 6000))
             if TRACE:
@@ -665,7 +665,7 @@ def prove(hyps, goal, timeout_ms=10000, rounds=5, want_model=False, fallbacks=Tr
             traceback.print_exc()
     if focus:
         # the contract names the facts this obligation follows from (`using`): that subset first (sound: a subset of the hypotheses)
-        subf = [hyps[i] for i in focus if i < len(hyps)]
+        subf = [(hyps[i] if isinstance(i, int) else i) for i in focus if not isinstance(i, int) or i < len(hyps)]
         for uidx in (False, True):
             try:
                 inst = Inst(nnf_skolem(subf + [z3.Not(goal)]), rounds=rounds, use_idx=uidx)
@@ -812,12 +812,20 @@ def satisfiable(hyps, timeout_ms=5000):
 # worker interface (process pool): obligations travel as SMT-LIB text
 # ---------------------------------------------------------------------------------------------------
 
+COVER_MARK = '__pyvc_cover_marker__'
+
+
 def ob_to_smt2(hyps, goal):
-    s = z3.Solver()
-    for h in hyps:
-        s.add(h)
-    s.add(z3.Not(goal) if goal is not None else z3.BoolVal(True))
-    return s.to_smt2()
+    """SMT-LIB text with ONE assertion per hypothesis, in order, and the negated goal (or, for a cover, a marker constant) last.
+    (z3.Solver.add flattens conjunctions and drops `true`, which would shift the positions the `using` subsets refer to and,
+    for covers, made the reader drop a literal `false` hypothesis instead of the trailing marker.)"""
+    last = z3.Not(goal) if goal is not None else z3.Bool(COVER_MARK)
+    hs = list(hyps)
+    ctx = z3.main_ctx()
+    arr = (z3.Ast * len(hs))()
+    for i, h in enumerate(hs):
+        arr[i] = h.as_ast()
+    return z3.Z3_benchmark_to_smtlib_string(ctx.ref(), 'pyvc', '', 'unknown', '', len(hs), arr, last.as_ast())
 
 
 def work(item):
@@ -827,12 +835,14 @@ def work(item):
     try:
         fs = list(z3.parse_smt2_string(smt2))
         if is_cover:
-            hyps = fs[:-1] if fs else []
+            hyps = [f for f in fs if not (z3.is_const(f) and f.decl().name() == COVER_MARK)]
             r = prove(hyps, z3.BoolVal(False), timeout_ms=min(timeout_ms, 5000), rounds=2, fallbacks=False)
             # cover succeeds when False is NOT derivable
             return name, {'status': 'cover-ok' if r['status'] != 'proved' else 'vacuous', 'backend': r['backend'], 'secs': r['secs'], 'n_inst': r['n_inst'], 'model': None}
         hyps, neg = fs[:-1], fs[-1]
         goal = neg.children()[0] if z3.is_not(neg) else z3.Not(neg)
+        if isinstance(focus, str):
+            focus = list(z3.parse_smt2_string(focus))[:-1]        # the named subset, as formulas
         return name, prove(hyps, goal, timeout_ms=timeout_ms, focus=focus)
     except Exception as e:
         import traceback
